@@ -573,7 +573,7 @@ func bytespoolGet(e *Engine, s *State, f *Frame, fn *ssa.Function, args []Value,
 		return &SliceV{Base: &Pointer{Obj: o.ID}, Off: c.BV(0, 64), Len: c.BV(0, 64), Cap: c.BV(0, 64)}, true
 	}
 	label := "bytespool.Get@" + e.curPos(s)
-	if !e.symLen && !size.IsConst() {
+	if !(e.symLen || s.symMem) && !size.IsConst() {
 		size = c.BV(e.concretize(s, size, "bytespool size"), 64)
 	}
 	if size.IsConst() {
